@@ -93,6 +93,48 @@ Proof.
   fold (child_deadline fx rs r). fold cd. cbn [st_dc]. rewrite dc_set_until_same. reflexivity.
 Qed.
 
+(* a nameserver address lookup that aborts the descent (cancellation, deadline, recursion work limit) or
+   leaves no usable server: the final store never happens.  What is then found under the key is what was there
+   before, or a provisional entry - and that one ends within the inherited deadline, hence within the lease
+   of every shallower delegation on the path, within observed + min(NS TTL, DS TTL), within observed + 12 h,
+   and within one minute of its own filing *)
+Lemma aborted_lookup_lemma : forall fx st i r rs d,
+  st_rs st i = Some rs ->
+  valid_referral (r_coherent r) (r_zone r) (rs_zone rs) (rs_q rs) = true ->
+  r_valid r = true -> r_pdet r = false ->
+  dc_get (st_dc st) (r_get r) (r_zone r) = None ->
+  r_abort r || negb (r_reach r) = true ->
+  st_dc (process_delegation fx st i r) (r_zone r) = Some d -> st_dc st (r_zone r) <> Some d ->
+  d_exp d <= child_deadline fx rs r /\
+  (forall c, cut_time (rs_cut rs) = Some c -> d_exp d <= c) /\
+  d_exp d <= r_obs r + lease_ttl r /\
+  (fx = true -> d_exp d <= r_obs r + max_ttl) /\
+  exists tn tc, In (tn, tc) (r_prov r) /\ d_exp d <= tn + provisional_cap /\ tc < d_exp d.
+Proof.
+  intros fx st i r rs d Hrs Hv Hval Hpd Hg Hab Hd Hne.
+  unfold process_delegation in Hd. rewrite Hrs, Hv, Hval in Hd. cbn [negb] in Hd. rewrite Hpd in Hd.
+  rewrite note_dc, Hg in Hd. rewrite Hab in Hd. cbn [st_dc] in Hd.
+  fold (child_deadline fx rs r) in Hd.
+  destruct (r_anchor r); [|contradiction].
+  apply provisional_cases_cap in Hd as [Hd|(_ & H1 & H2)]; [contradiction|].
+  split; [exact H1|]. split.
+  - intros c Hc. pose proof (child_deadline_val fx rs r) as Hcd. cbv zeta in Hcd. rewrite Hc in Hcd.
+    destruct fx; lia.
+  - split; [pose proof (child_deadline_le_lease fx rs r); lia|].
+    split; [intros ->; pose proof (child_deadline_le_ceiling rs r); lia|exact H2].
+Qed.
+
+(* the hypotheses are satisfiable, and the bound is the ancestor's: under a 3 s ancestor lease a 12 h child
+   referral whose glue-less nameserver lookup is cancelled leaves a provisional entry that ends with the ancestor *)
+Example ex_aborted_lookup :
+  let s := 1000000000 in
+  let st := run code_fx [ASeed 0 0 [1;2;9]%N false 0;
+                         ARefer 0 (mk_ref [1%N] 1 true 3 None true 0 false 0 [] false true true 0);
+                         ARefer 0 (mk_ref [1;2]%N 2 true 43200 None true s false s [(s, s)] true true true s)] st_init in
+  option_map d_exp (st_dc st [1;2]%N) = Some (3 * s) /\
+  m_zone (search_cache (st_dc st) (3 * s) [1;2;9]%N false) = [].
+Proof. vm_compute. repeat split; reflexivity. Qed.
+
 (* a referral that arrives while another resolution has already stored the delegation (the cached branch):
    nothing is written, the descent continues with the cached servers and with the SHORTER of the cached
    lease and the deadline of the referral just observed, and the request tree is bounded by it *)
